@@ -26,9 +26,11 @@ IMin(a, b) == IF a <= b THEN a ELSE b
 IMax(a, b) == IF a >= b THEN a ELSE b
 IAbs(a) == IF a < 0 THEN -a ELSE a
 
-(* n / m for integers 0 <= n <= m <= 1023 (exact rational, tight interval) *)
+(* n / m for integers 0 <= n <= m, m <= 1023 or m = 65535 (exact rational, tight interval) *)
 IvFromUnorm(n, m) ==
     IF n = 0 THEN IvZero ELSE IF n = m THEN IvOne
+    ELSE IF m = 65535                      \* 16-bit colours: n 2^20 / 65535 = 16 n + 16 n / 65535 (no 32-bit overflow)
+    THEN LET q == 16 * n + (16 * n) \div 65535 IN IF (16 * n) % 65535 = 0 THEN <<q, q>> ELSE <<q, q + 1>>
     ELSE LET q == (n * ONE) \div m IN IF q * m = n * ONE THEN <<q, q>> ELSE <<q, q + 1>>
 
 IvAdd(a, b) == <<a[1] + b[1], a[2] + b[2]>>
